@@ -176,7 +176,8 @@ HiggsInvs(ev) ==
   IN << I("Gauge:MW", Rel(Mul(N(4), Sq(mw)), MW2x4(p))),
         I("Gauge:MZ", Rel(Mul(N(20), Sq(mz)), MZ2x20(p))),
         I("Higgs:GoldstonesAtIndex0", quiet => Rel(ms["MAh_00"], mz) /\ Rel(ms["MHpm_00"], mw)),
-        I("Higgs:mA", quiet => Rel(Mul(Sq(mA), vv), mA2vv)),
+        \* (1e-11 of the norm of the 2x2 matrix, whose other eigenvalue is MZ^2: a light m_A is the small root of it)
+        I("Higgs:mA", quiet => Within(Mul(Sq(mA), vv), mA2vv, Mul(Max2(Sq(mA), Sq(mz)), Abs(vv)))),
         I("Higgs:mHpm2=mA2+mW2", quiet => Rel(Sq(mHp), Add(Sq(mA), Sq(mw)))),
         I("Higgs:mh2+mH2=mA2+mZ2", quiet => Rel(Add(Sq(ms["Mhh_00"]), Sq(ms["Mhh_10"])), Add(Sq(mA), Sq(mz)))),
         I("Higgs:Orthogonal", Orth2(ev.mix, "ZH") /\ Orth2(ev.mix, "ZA") /\ Orth2(ev.mix, "ZP")),
